@@ -1,7 +1,17 @@
-//! Conformance drivers (pv-msgs). Sub-commands are added per property.
+//! Conformance drivers for the mini-protocol message codecs (C22) and the
+//! handshake responders (C25) of both network stacks.
+mod hs;
+mod queries;
+mod reject;
+mod tok;
+mod wf;
+
 fn main() {
     let args = pv_core::Args::parse();
     match args.cmd.as_str() {
+        "wf-trace" => wf::trace(&args),
+        "hs-replay" => hs::replay(&args),
+        "hs-trace" => hs::trace(&args),
         other => pv_core::die(&format!("unknown sub-command {other}")),
     }
 }
